@@ -177,13 +177,13 @@ package mobius
 //@   requires am.accountDir == ROOT
 //@   before call os.Stat assert inroot(arg0)
 //@   before call mobius.writeFileAtomic assert inroot(arg0)
-//@   before call os.OpenFile assert inroot(arg0)
+//@   before any call os.OpenFile assert inroot(arg0)
 //@ func (am *YAMLAccountManager) Update(account hotline.Account, newLogin string) (err error)
 //@   property C07
 //@   requires am.accountDir == ROOT
 //@   before call os.Rename assert inroot(arg0) && inroot(arg1)
 //@   before call mobius.writeFileAtomic assert inroot(arg0)
-//@   before call os.WriteFile assert inroot(arg0)
+//@   before any call os.WriteFile assert inroot(arg0)
 //@ func (am *YAMLAccountManager) Delete(login string) (err error)
 //@   property C07
 //@   requires am.accountDir == ROOT
@@ -272,3 +272,17 @@ package mobius
 //@   before call hotline.NewField assert arg0[0] == 0 && arg0[1] == 101 ==> len(arg1) <= 8192
 //@   before call hotline.NewTransaction#2 assert priv(c, 9)
 //@   before call hotline.NewTransaction assert arg0[0] == 0 && arg0[1] == 106
+
+// ---------------------------------------------------------------------------------
+// C08: the download reply.  The only refusal is the privilege denial; the transfer size field is
+// TransferSize(0) of the wrapper built at the resume offset (or the bare data size for a preview),
+// the file size field is the remaining data length.
+
+//@ func HandleDownloadFile(cc *hotline.ClientConn, t *hotline.Transaction) (res []hotline.Transaction)
+//@   property C08
+//@   before call (*hotline.ClientConn).NewErrReply assert !priv(cc, 2)
+//@   before call (*hotline.flattenedFileObject).TransferSize assert arg1 == 0 && arg0 == callres("hotline.NewFileWrapper", 0).Ffo
+//@   before call hotline.NewField#3 assert arg0[0] == 0 && arg0[1] == 108
+//@   before call hotline.NewField#3 assert isnil(reqdata(0, 204)) ==> same(arg1, callres("(*hotline.flattenedFileObject).TransferSize"))
+//@   before call hotline.NewField#3 assert !isnil(reqdata(0, 204)) ==> len(arg1) == 4 && ptsto(arg1, hlFile.Ffo.FlatFileDataForkHeader.DataSize)
+//@   before call hotline.NewField#4 assert arg0[0] == 0 && arg0[1] == 207 && len(arg1) == 4 && ptsto(arg1, hlFile.Ffo.FlatFileDataForkHeader.DataSize)
